@@ -456,9 +456,19 @@ func (e *EntitlementMapAccess) Image(gauge common.MemoryGauge, inputs Access, po
 		output := orderedmap.New[EntitlementOrderedSet](inputs.Entitlements.Len())
 
 		var err error
+		var disjunctionMemberWithEmptyImage bool
 		inputs.Entitlements.Foreach(func(entitlement *EntitlementType, _ struct{}) {
 			entitlementImage := e.entitlementImage(entitlement)
 			output.SetAll(entitlementImage)
+
+			// A disjunction only guarantees that one of its members is held.
+			// If the image of any member is empty, then nothing is guaranteed for the output:
+			// the holder may only have that member, which maps to nothing.
+			if inputs.SetKind == Disjunction &&
+				entitlementImage.Len() == 0 {
+
+				disjunctionMemberWithEmptyImage = true
+			}
 
 			// The image of a single element is always a conjunctive set;
 			// consider a mapping M defined as X -> Y, X -> Z, A -> B, A -> C. M(X) = Y & Z and M(A) = B & C.
@@ -481,7 +491,7 @@ func (e *EntitlementMapAccess) Image(gauge common.MemoryGauge, inputs Access, po
 		}
 
 		// the image of a set through a map is the conjunction of all the output sets
-		if output.Len() == 0 {
+		if output.Len() == 0 || disjunctionMemberWithEmptyImage {
 			return UnauthorizedAccess, nil
 		}
 
